@@ -11,4 +11,5 @@ CONSTANTS
   Depth = 14
   Loop = FALSE
   AddGate = TRUE
+  MaxHeal = 1
 CHECK_DEADLOCK FALSE
